@@ -31,6 +31,8 @@ type Encoder struct {
 	refer  encoderRefer
 	ref    map[reflect.Type]int
 	last   int
+	// depth counts the values being written, one inside the other (see writeValue)
+	depth  int
 	Writer io.Writer
 	Error  error
 }
@@ -108,6 +110,21 @@ func (enc *Encoder) fastWriteValue(v interface{}) (ok bool) {
 }
 
 func (enc *Encoder) writeValue(v interface{}, encode func(m ValueEncoder, v interface{})) {
+	if enc.depth >= maxDepth {
+		// a map or a list that contains itself, or any cyclic structure in simple mode: an
+		// error instead of recursing until the goroutine stack is exhausted
+		if enc.Error == nil {
+			enc.Error = ErrNestedTooDeep
+		}
+		enc.WriteNil()
+		return
+	}
+	enc.depth++
+	enc.doWriteValue(v, encode)
+	enc.depth--
+}
+
+func (enc *Encoder) doWriteValue(v interface{}, encode func(m ValueEncoder, v interface{})) {
 	if enc.fastWriteValue(v) {
 		return
 	}
@@ -307,6 +324,7 @@ func (enc *Encoder) Reset() *Encoder {
 		delete(enc.ref, k)
 	}
 	enc.last = 0
+	enc.depth = 0
 	return enc
 }
 
